@@ -381,6 +381,7 @@ structure POracle where
   lastErr : Nat := 0
   lastUsed : Nat := 0                   -- cursor after the previous call (C16)
   afterRaw : Bool := false              -- the previous judged call was get_raw / to_writer on a container (C11: "the cursor continues with the element that follows")
+  pendingCont : Bool := false           -- the last advancing call returned true on an un-entered container (judged from the observations, any document)
   deriving Inhabited
 
 structure WOracle where
@@ -878,10 +879,15 @@ def oracleStep (o : OState) (toks : List String) (impl : String) : OState :=
      | _, _, _ => o) |> fun o => setPO o { po with cursor := none, latched := 0 } else
   if op == "ts" || op == "pr" || op == "tsH" then
     let o := textOracle o po toks impl
+    -- C09: print / to_string that fail because the document is malformed leave the error set: one check after the call detects it
+    let o := if op != "tsH" && po.inited && po.value.isNone && impl.startsWith "0 " &&
+        ((impl.splitOn " ").any fun t => t == "e0") then
+        o.flag "C09" s!"@{k} {op} failed on bytes that are not a well-formed document, yet the error indicator is clear after the call: the failure cannot be detected by a check at the end ({impl.take 80})"
+      else o
     let u := match (impl.splitOn " ").getLast? with
       | some t => if t.startsWith "u" then (dropPrefix t 1).toNat! else po.lastUsed
       | none => po.lastUsed
-    setPO o { po with cursor := (po.value.map fun v => Cursor.start po.root v), latched := 0, nest := 0, lastUsed := u } else
+    setPO o { po with cursor := (po.value.map fun v => Cursor.start po.root v), latched := 0, nest := 0, lastUsed := u, pendingCont := false } else
   let ob := parseObs (match impl.splitOn " | " with | a :: _ => a | [] => impl)
   if !ob.ok then o else
   let o := { o with errHist := o.errHist.modify ob.err (· + 1) }
@@ -917,8 +923,14 @@ def oracleStep (o : OState) (toks : List String) (impl : String) : OState :=
        if ["gt", "gs", "gy", "gn", "gi", "gb", "gd", "se"].contains op && !neutral.contains ob.ret then
          o.flag "C09" s!"@{k} {op}: getter returned {ob.ret} while the error {po.latched} is set" else o)
     else o
+  -- C09: get_raw on a container that next/lookup has just returned fails only by raising an error
+  let o := if op == "gr" && po.pendingCont && po.latched == 0 && ob.ret.startsWith "0" && ob.err == 0 then
+      o.flag "C09" s!"@{k} get_raw failed on the container that the previous call returned, yet no error is set after the call: the failure cannot be detected by a check at the end"
+    else o
   -- C16: callbacks (tokens processed) bounded by the bytes moved over
-  let o := if isAdvancing op || op == "v" then
+  -- (profile anyL issues lookups with an array on top, outside the documented use the bound is stated for: there a lookup
+  --  re-announces every container element it parks on, up to 3 tokens per 2 bytes; those calls are judged for termination only)
+  let o := if (isAdvancing op || op == "v") && !(o.profile == "anyL" && ["f", "fz", "F", "Fz"].contains op) then
       (let o := { o with nCostJudged := o.nCostJudged + 1 }
        let bound := po.doc.size + 1
        let o := if ob.ncb > bound then o.flag "C16" s!"@{k} {op}: {ob.ncb} tokens processed for a {po.doc.size}-byte buffer" else o
@@ -932,6 +944,15 @@ def oracleStep (o : OState) (toks : List String) (impl : String) : OState :=
       (let o := { o with nVerifyJudged := o.nVerifyJudged + 1 }
        let want := po.value.isSome
        let o := if (ob.ret == "1") != want then o.flag "C02" s!"@{k} verify returned {ob.ret}; the bytes are {if want then "" else "not "}a well-formed document at max_depth {po.md}" else o
+       -- C12: the verdict does not depend on what the object was used for since init
+       let o := if (ob.ret == "1") != want && (po.lastUsed != 0 || po.lastErr != 0) then
+           o.flag "C12" s!"@{k} verify returned {ob.ret} on a parser that had been used (cursor {po.lastUsed}, error {po.lastErr}); a fresh parser on the same bytes at max_depth {po.md} {if want then "accepts" else "rejects"}" else o
+       -- C05: what a well-formed write sequence produced is accepted by binson_parser_verify
+       let o := if o.profile == "rt" && want && ob.ret != "1" then
+           o.flag "C05" s!"@{k} binson_parser_verify rejected the canonical output of a well-formed write sequence" else o
+       -- C09: a verify that fails leaves its error set
+       let o := if ob.ret == "0" && ob.err == 0 && !want then
+           o.flag "C09" s!"@{k} verify failed on bytes that are not a well-formed document, yet the error indicator is clear after the call" else o
        -- nesting as the first obstacle: the matching error code
        match decodeRef po.doc.toList with
        | some v =>
@@ -972,6 +993,9 @@ def oracleStep (o : OState) (toks : List String) (impl : String) : OState :=
     else if op == "N" || op == "p2w" then (o, { po with cursor := none })
     else cursorOracle o k po op toks ob
   let po := { po with latched := if resetting then ob.err else (if po.latched != 0 then po.latched else ob.err) }
+  let po := { po with pendingCont :=
+    if ["n", "N", "f", "fz", "F", "Fz"].contains op then (ob.ret == "1" && ob.err == 0 && (ob.ty == 1 || ob.ty == 3))
+    else if ["gt", "gD", "gs", "gy", "gn", "gi", "gb", "gd", "se"].contains op then po.pendingCont else false }
   setPO o po
 
 /-! ## main -/
